@@ -157,8 +157,44 @@ def _tf(src, dst, p):
     return np.asarray(f(np.array(p, dtype=float).reshape(3, 1)), dtype=float).ravel()
 
 
+def input_forms(ctx):
+    """the same points given in other, equally legitimate forms -- integer-typed arrays (pixel indices), a scalar third
+    coordinate next to arrays (one detector height for all points), nested lists -- convert to the same values as the float
+    (3, N) array of those numbers"""
+    rng = ctx.rng
+    for i in range(ctx.n(12, 120)):
+        N = int(rng.integers(2, 6))
+        for src, dst in (("cartesian", "cylindrical"), ("cylindrical", "cartesian"), ("cartesian", "spherical"), ("cylindrical", "spherical")):
+            if src == "cartesian":
+                a0 = rng.integers(-6, 7, size=N); a1 = rng.integers(1, 7, size=N)
+            else:
+                a0 = rng.integers(1, 7, size=N); a1 = rng.integers(0, 6, size=N)
+            zs = float(rng.choice([2.5, -0.75, 0.3, 7.25, -3.5]))
+            f = hm.find_transformation_function(src, dst)
+            forms = {"integer arrays + scalar height": [a0.astype(int), a1.astype(int), zs],
+                     "int32 arrays + scalar height": [a0.astype(np.int32), a1.astype(np.int32), zs],
+                     "float arrays + scalar height": [a0.astype(float), a1.astype(float), zs],
+                     "integer arrays + float height array": [a0.astype(int), a1.astype(int), np.full(N, zs)]}
+            want = np.asarray(f(np.array([a0.astype(float), a1.astype(float), np.full(N, zs)])), dtype=float)
+            for nm, arg in forms.items():
+                if "scalar" in nm and "cylindrical" not in (src, dst):
+                    continue
+                if "scalar" in nm and (src, dst) == ("cylindrical", "spherical"):
+                    continue       # only the cartesian <-> cylindrical pair documents a scalar height
+                ctx.tried("input-form", (src, dst, nm, N, i))
+                r = impl_call(lambda: np.asarray(f(arg), dtype=float))
+                if isinstance(r, tuple):
+                    continue       # a refusal is not a wrong value
+                if r.shape != want.shape or not (np.abs(r - want).max() <= 1e-12 * max(1.0, np.abs(want).max())):
+                    ctx.violation("C19:input-form:%s-%s" % (src, dst), "%s -> %s of %s (height %r) differs from the conversion of the same numbers given as a float array by %.3g" % (
+                        src, dst, nm, zs, float(np.abs(r - want).max()) if r.shape == want.shape else float("nan")),
+                        dict(kind="input-form", src=src, dst=dst, form=nm, a0=a0.tolist(), a1=a1.tolist(), z=zs, got=r.tolist(), want=want.tolist()))
+                    break
+
+
 def search(ctx):
     rng = ctx.rng
+    input_forms(ctx)
     n = ctx.n(100, 1000)
     TWO_PI = 2 * math.pi
     for i in range(n):
